@@ -197,6 +197,10 @@ class TypeState:
         ):
             # Variance indeterminate -- don't know the result
             return
+        if self._assuming or self._assuming_proper:
+            # The result may depend on an assumption about recursive types that
+            # is still being verified (and may turn out to be wrong).
+            return
         cache = self._subtype_caches.setdefault(right.type, {})
         cache.setdefault(kind, set()).add((left, right))
 
